@@ -57,7 +57,7 @@ CLAIMED["C01"] = ("Structural clauses: (b) kind-set dataflow proves every typed 
     "same object (VM opcodes and primitives; unguarded helpers become obligations of their call sites); (j) writers of a string's (bytes, offset, "
     "length) keep the view inside the bytes object; (f) every direct C recursion cycle reachable from reader/writer/equal?/eval goes through a "
     "verified depth-parameter bounder (guard direction and per-call-edge step checked) or a listed by-construction bounder; (a) dispatch totality "
-    "of the VM switch; (c1) data-dependent VM stack copies dominated by a capacity check; (c2) the failure edge of every stack-growth attempt goes to the exit sequence of sexp_apply before any dispatch; (p) integer divisions by the unboxed value of an operand are dominated by a non-zero test (interprocedural: zero-unsafe parameters become obligations of call sites); (q) no immediate constant is passed to a parameter the callee dereferences untested; (r) type-table indexes carrying a program value are range-checked; (s) results that sexp_complex_normalize may have turned into reals are not passed to parameters read as complex numbers; (c3) stack growth requests cover the compared quantity, (c4) bounded pushback; (t) an application that keeps an opcode object as its head has at most num_args+1 operands unless generate_opcode_app folds the opcode's class; (d) slot accessor rows designate sexp fields; "
+    "of the VM switch; (c1) data-dependent VM stack copies dominated by a capacity check; (c2) the failure edge of every stack-growth attempt goes to the exit sequence of sexp_apply before any dispatch; (p) integer divisions by the unboxed value of an operand are dominated by a non-zero test (interprocedural: zero-unsafe parameters become obligations of call sites); (q) no immediate constant is passed to a parameter the callee dereferences untested; (r) type-table indexes carrying a program value are range-checked; (s) results that sexp_complex_normalize may have turned into reals are not passed to parameters read as complex numbers; (c3) stack growth requests cover the compared quantity, (c4) bounded pushback; (t) an application that keeps an opcode object as its head has at most num_args+1 operands unless generate_opcode_app folds the opcode's class; (u) the values pushed by the instructions a generating function of vm.c emits are covered by its depth increments; (u) the values pushed by the instructions a generating function emits are covered by its depth increments; (d) slot accessor rows designate sexp fields; "
     "(g) saved context state restored on every path; (h) growable reader buffers advance at most their guard's budget. All-paths decisions of these "
     "clauses (necessary conditions of memory safety / error containment); pointer-walking loops, memcpy lengths, context-owned tables, the reader's "
     "label table, stack-growth sufficiency and out-of-memory paths are not decided.",
